@@ -314,12 +314,12 @@ func init() {
 		Strata: []*fw.Stratum{
 			{Name: "hex-escapes", Quick: 1, Thorough: 1, Exhaustive: true, Run: runC07Hex},
 			{Name: "unicode-escapes-4", Quick: 65536 / litChunk, Thorough: 65536 / litChunk, Exhaustive: true, Run: runC07U4},
-			{Name: "unicode-escapes-brace", Quick: 33, Thorough: 33, Run: runC07UBrace},
+			{Name: "unicode-escapes-brace", Quick: 33, Thorough: 257, Run: runC07UBrace},
 			{Name: "ascii-bytes", Quick: 1, Thorough: 1, Exhaustive: true, Run: runC07ASCII},
 			{Name: "misc-escapes", Quick: 1, Thorough: 1, Exhaustive: true, Run: runC07Misc},
-			{Name: "random-strings", Quick: 320, Thorough: 3200, Run: runC07Random},
-			{Name: "backtick-strings", Quick: 100, Thorough: 1000, Run: runC07Backticks},
-			{Name: "numbers", Quick: 40, Thorough: 400, Run: runC07Numbers},
+			{Name: "random-strings", Quick: 1600, Thorough: 16000, Run: runC07Random},
+			{Name: "backtick-strings", Quick: 500, Thorough: 5000, Run: runC07Backticks},
+			{Name: "numbers", Quick: 200, Thorough: 2000, Run: runC07Numbers},
 		},
 	})
 }
